@@ -2,8 +2,12 @@ package main
 
 import (
 	"bytes"
+	"context"
 	"encoding/json"
 	"fmt"
+	"os"
+	"os/exec"
+	"time"
 	"runtime/debug"
 	"sort"
 	"strconv"
@@ -154,7 +158,8 @@ func runSteps(m *fieldmask.FieldMask, steps []string) (out string, pkey string, 
 	return strings.Join(acc, " "), "", oks
 }
 
-func (w *World) getPath(m *fieldmask.FieldMask, root *Ty, path string) (string, string) {
+// getPathInProc: GetPath and PathInMask in this process.
+func (w *World) getPathInProc(m *fieldmask.FieldMask, root *Ty, path string) (string, string) {
 	return guard(func() string {
 		sub, ok := m.GetPath(w.Desc(root), path)
 		if ok2 := m.PathInMask(w.Desc(root), path); ok2 != ok {
@@ -162,6 +167,52 @@ func (w *World) getPath(m *fieldmask.FieldMask, root *Ty, path string) (string, 
 		}
 		return vl.B(ok) + ":" + sig(sub)
 	})
+}
+
+var inChild bool
+
+// getPath: a path containing a backslash may send GetPath into a loop that never advances
+// (found by this harness), so such calls are first tried in a child process under a time limit;
+// a timeout is the outcome "crash" (the model's word for non-termination).
+func (w *World) getPath(c *Case, m *fieldmask.FieldMask, root *Ty, path string) (out string, pkey string, hang bool) {
+	if !inChild && strings.Contains(path, "\\") {
+		x := *c
+		x.Op = "getpath"
+		x.GP = vl.Hex(path)
+		js, _ := json.Marshal(&x)
+		ctx, cancel := context.WithTimeout(context.Background(), 3*time.Second)
+		defer cancel()
+		cmd := exec.CommandContext(ctx, os.Args[0], "child")
+		cmd.Stdin = bytes.NewReader(js)
+		cmd.Stderr = nil
+		if _, err := cmd.Output(); err != nil && ctx.Err() != nil {
+			return "crash", "", true
+		}
+	}
+	out, pkey = w.getPathInProc(m, root, path)
+	return out, pkey, false
+}
+
+// child: run one getpath case (stdin: Case JSON); used only for its termination.
+func child() error {
+	inChild = true
+	var c Case
+	if err := json.NewDecoder(os.Stdin).Decode(&c); err != nil {
+		return err
+	}
+	w, err := world(c.IDL)
+	if err != nil {
+		return err
+	}
+	root, _, err := parseTyToks(c.Root)
+	if err != nil {
+		return err
+	}
+	m, _, _ := w.newMask(root, c.Black, c.paths())
+	if m != nil {
+		w.getPathInProc(m, root, vl.UnHex(c.GP))
+	}
+	return nil
 }
 
 // ---------------------------------------------------------------- JSON text of MarshalJSON -> canonical tree
